@@ -21,7 +21,7 @@ ANCHORS = ["prov.model:ProvRecord.copy", "prov.model:ProvBundle.add_record", "pr
            "prov.model:ProvDocument.add_bundle", "prov.model:ProvDocument.flattened", "prov.model:ProvDocument.update", "prov.model:ProvBundle.update",
            "prov.model:ProvBundle.__init__", "prov.model:NamespaceManager.__init__"]
 DERIVE = ["copy", "add_record", "ctor", "update", "add_bundle_doc", "unified", "bundle_unified", "flattened", "json", "xml", "rdf"]
-MUTATORS = ["add_attribute", "add_record", "add_namespace", "set_default", "add_bundle"]
+MUTATORS = ["add_attribute", "add_value", "add_record", "add_namespace", "set_default", "add_bundle"]
 
 
 def plan(tier, seed):
@@ -97,16 +97,29 @@ def view(x):
 def mutate(x, how, r, shared_hint=None):
     """Apply one mutator to a document / bundle / record. Returns False when not applicable."""
     NSX = Namespace("mut%d" % r.randint(0, 9), "http://mutation.example/%d/" % r.randint(0, 9))
+    def add_value(rec):
+        """A further value under an attribute name the record already has (goes through the existing value set)."""
+        names = [a for a, vs in rec._attributes.items() if vs and a.uri not in monitors.FORMAL]
+        if not names:
+            return False
+        rec.add_attributes([(r.choice(names), "mutated-%d" % r.randint(0, 999))])
+        return True
+
     if isinstance(x, pm.ProvRecord):
+        if how == "add_value":
+            return add_value(x)
         if how != "add_attribute":
             return False
         x.add_attributes([(NSX["attr"], "mutated")])
         return True
     containers = [x] + (list(x.bundles) if x.is_document() else [])
-    if how == "add_attribute":
+    if how in ("add_attribute", "add_value"):
         recs = [rec for c in containers for rec in c._records]
         if not recs:
             return False
+        if how == "add_value":
+            r.shuffle(recs)
+            return any(add_value(rec) for rec in recs[:1]) or any(add_value(rec) for rec in recs[1:4])
         r.choice(recs).add_attributes([(NSX["attr"], "mutated")])
         return True
     if how == "add_record":
@@ -196,8 +209,8 @@ def judge(ctx, idx, case):
             for side in ("result", "source"):
                 target, watched = (b, a) if side == "result" else (a, b)
                 for how in r.sample(MUTATORS, 2) + (["add_namespace", "set_default"] if any("NamespaceManager" in s for s in shared) else []) \
-                        + (["add_attribute"] if any("record" in s or "value set" in s for s in shared) else []):
-                    if dname == "copy" and how != "add_attribute":
+                        + (["add_attribute", "add_value"] if any("record" in s or "value set" in s for s in shared) else []):
+                    if dname == "copy" and how not in ("add_attribute", "add_value"):
                         continue
                     before = view(watched)
                     try:
